@@ -36,12 +36,25 @@ META = {
              "every dimension-1 family over its whole offset lattice, likelihood / posterior / multiple-likelihood posterior of the "
              "one-parameter models and the posterior of a scalar hyper-parameter, evaluated with the point as python float, numpy "
              "scalar, 0-d array, 1-element array, 1-element list and CUQIarray at magnitudes below and above one, analytic and with "
-             "enable_FD()."),
+             "enable_FD(). Classes (specs/FamiliesGallery.tla, invariants ClassTable, RichardsonExact, RichardsonOrder, EstimateBounds, "
+             "SmoothStencil, LatticeCovers, StackSum; deviations DevFirstOrderWeights, DevStencilAcrossKink refuted by TLC): EVERY public "
+             "class of cuqi.distribution (and UserDefinedLikelihood) has its rows in the decision table; the seven DistributionGallery "
+             "benchmarks, whose log-density is defined by the object only, are evaluated on a TLC-enumerated lattice of [-4, 4]^2 (modes, "
+             "between components of different variance, tails; the non-differentiable point r = 0 of the ring-shaped ones is observed only) "
+             "and the gradient - analytic, two passes over one object, integer points as int64 array / list, and with enable_FD() - is "
+             "compared with the Richardson tableau of central differences of the SAME object's logd (weights, steps, tolerances emitted by "
+             "the spec: exact up to degree 6; a reference is accepted only when its own error estimate is below 1e-7 relative, else the "
+             "point is skipped and counted; comparison at 1e-6); the same oracle judges posteriors with a gallery prior (user-defined "
+             "likelihood, Gaussian likelihood of a linear model, two likelihoods); stacked joints of two independent parts (exact sum / "
+             "concatenation: refused, derivative with FD), UserDefinedLikelihood (pass-through / refused; sum rule of its posterior), "
+             "JointGaussianSqrtPrec and JointDistribution (refused)."),
     "note": ("A raised exception is accepted wherever a vector is specified (the property only constrains returned vectors) and is "
-             "reported as an observation; FD results are compared at forward-difference accuracy; PDE-based models, "
-             "DistributionGallery targets are not modelled; user-defined distributions: pass-through of gradient_func, refusal "
-             "without one, finite differences of logpdf_func."),
-    "technique": "TLA+ spec (Families, SymLog) model-checked with TLC; TLC-emitted exact gradients replayed into cuqi objects",
+             "reported as an observation; FD results are compared at forward-difference accuracy; PDE-based models are "
+             "not modelled; DistributionGallery: no documented density exists, the oracle is the extrapolated central difference of "
+             "the object's own logd (not exact: tolerance 1e-6 relative, ten times the accepted error estimate); user-defined "
+             "distributions / likelihoods: pass-through of gradient_func, refusal without one, finite differences of logpdf_func."),
+    "technique": ("TLA+ spec (Families, FamiliesSeq, FamiliesGallery, SymLog) model-checked with TLC; TLC-emitted exact gradients (gallery: "
+                  "TLC-checked extrapolation tableau of the object's own log-density) replayed into cuqi objects"),
 }
 
 import json, math
@@ -652,14 +665,20 @@ def run(ctx):
                 "one likelihood, one posterior and one multiple-likelihood posterior; siblings: per Reassign pair and prefix of its "
                 "assignment order (= callable parameters of the conditional original) the behaviour Condition A, Condition B, Evaluate A, "
                 "use of the original, Evaluate B, Evaluate A plus behaviours of FamiliesSeq.Siblings in rotation (thorough: all of "
-                "them); points: one case per (dimension-1 configuration, way of passing parameters, container kind, FD flag)")
+                "them); points: one case per (dimension-1 configuration, way of passing parameters, container kind, FD flag); classes: "
+                "one case per (benchmark, lattice point, pass / container / FD), per (posterior kind, benchmark, every 7th lattice point) "
+                "and per stacked pair")
     ctx.exhaustive = True
     ctx.traces = n
     ctx.assumptions += ["equality 'gradient = derivative of this object's log-density' uses the same lattice points whose logpdf is "
                         "compared with the documented density under C04 (and here for likelihoods / posteriors)",
                         "finite-difference results are compared at forward-difference accuracy only",
                         "a raised exception where a vector is specified is not a violation (recorded as observation)",
-                        "PDE-based models, DistributionGallery targets and user-supplied gradient callables are not modelled",
+                        "PDE-based models are not modelled; user-supplied gradient callables are passed through (only callables that ARE "
+                        "the derivative of the supplied log-density are used)",
+                        "DistributionGallery and posteriors on it: the reference is the Richardson tableau (h = 2^-7, 2^-8, 2^-9) of central "
+                        "differences of the object's own logd, accepted when |R2 - R1(h/2)| + rounding bound <= 1e-7 max(1, |ref|); comparison "
+                        "at 1e-6 max(1, |ref|); the benchmarks are analytic on the stencils (spec: SmoothStencil)",
                         "a container of the evaluation point that the implementation refuses (exception) is an observation; "
                         "ModifiedHalfNormal points only where alpha = beta = gamma (finding C03-F3)"]
 
